@@ -298,6 +298,114 @@ Fixpoint full_log (fd : rcb) (t : tree) : list event :=
 (* side condition for the Arc<dyn> implementation, which drops unreported changes by design *)
 Definition impl_ok (im : impl) (fd fu : rcb) : Prop := im = IDyn -> honest fd /\ honest fu.
 
+(* ================================================================== GROUPED CONTAINERS (Expr-style nodes)
+   impl TreeNode for Expr (and LogicalPlan, ...) keeps the children of a node in several sibling
+   containers -- Box<Expr>, Option<Box<Expr>>, Vec<Expr>, Vec<(Box<Expr>, Box<Expr>)>, ... -- combined by the
+   tuple TreeNodeContainer impls:  (c0, c1, c2).apply_elements(f) =
+       c0.apply_elements(f)?.visit_sibling(|| c1.apply_elements(f))?.visit_sibling(|| c2.apply_elements(f))
+   and map_elements likewise with transform_sibling.  A Box is a one-element group, an Option a zero- or
+   one-element group, a Vec an n-element group (Vec::apply_elements = apply_until_stop, and
+   None / empty Vec => Ok(Continue) resp. Transformed::no).  A leaf has no group at all. *)
+Inductive gtree := GNode (l : Z) (gs : list (list gtree)).
+
+Definition apply_groups {A} (f : A -> M tnr) : list (list A) -> M tnr :=
+  fix go (gs : list (list A)) : M tnr :=
+    match gs with
+    | [] => ret Continue
+    | g :: rest =>
+        match rest with
+        | [] => apply_until_stop f g
+        | _ => bind (apply_until_stop f g) (fun t => visit_sibling t (fun _ => go rest))
+        end
+    end.
+
+Definition map_groups {A} (f : A -> M (Tr A)) : list (list A) -> M (Tr (list (list A))) :=
+  fix go (gs : list (list A)) : M (Tr (list (list A))) :=
+    match gs with
+    | [] => ret (mkT [] false Continue)
+    | g :: rest =>
+        bind (map_until_stop_and_collect f g) (fun r0 =>
+        match rest with
+        | [] => ret (mkT [data r0] (changed r0) (rec r0))
+        | _ =>
+            (* .map_data(|c0| (c0, rest))?.transform_sibling(|(c0, rest)| rest.map(..)) *)
+            match rec r0 with
+            | Continue | Jump =>
+                bind (go rest) (fun r1 => ret (mkT (data r0 :: data r1) (changed r1 || changed r0) (rec r1)))
+            | Stop => ret (mkT (data r0 :: rest) (changed r0) Stop)
+            end
+        end)
+    end.
+
+Definition gvcall (ph : phase) (f : vcb) (t : gtree) : M tnr :=
+  match t with GNode l _ => ([(ph, l)], f l) end.
+Definition grcall (ph : phase) (f : rcb) (t : gtree) : M (Tr gtree) :=
+  match t with GNode l gs => let '(l', ch, r) := f l in ([(ph, l)], mkT (GNode l' gs) ch r) end.
+Definition gapply_children (k : gtree -> M tnr) (t : gtree) : M tnr :=
+  match t with GNode _ gs => apply_groups k gs end.
+Definition gmap_children_on (k : gtree -> M (Tr gtree)) (l : Z) (gs : list (list gtree)) : M (Tr gtree) :=
+  bind (map_groups k gs) (fun r => ret (mkT (GNode l (data r)) (changed r) (rec r))).
+Definition gmap_children (k : gtree -> M (Tr gtree)) (t : gtree) : M (Tr gtree) :=
+  match t with GNode l gs => gmap_children_on k l gs end.
+
+Fixpoint gapply (f : vcb) (t : gtree) : M tnr :=
+  match t with
+  | GNode l gs => bind ([(PDown, l)], f l) (fun r => visit_children r (fun _ => apply_groups (gapply f) gs))
+  end.
+Definition gexists (p : Z -> bool) (t : gtree) : M bool :=
+  let (lg, _) := gapply (fun l => if p l then Stop else Continue) t in
+  (lg, existsb (fun e => p (snd e)) lg).
+Fixpoint gvisit (fd fu : vcb) (t : gtree) : M tnr :=
+  match t with
+  | GNode l gs =>
+      bind ([(PDown, l)], fd l) (fun r =>
+      bind (visit_children r (fun _ => apply_groups (gvisit fd fu) gs)) (fun rc =>
+      visit_parent rc (fun _ => ([(PUp, l)], fu l))))
+  end.
+Fixpoint gtransform_down (f : rcb) (t : gtree) : M (Tr gtree) :=
+  match t with
+  | GNode l gs =>
+      let '(l', ch, r) := f l in
+      bind ([(PDown, l)], mkT (GNode l' gs) ch r) (fun t1 =>
+      transform_children t1 (fun _ => gmap_children_on (gtransform_down f) l' gs))
+  end.
+Fixpoint gtransform_up (f : rcb) (t : gtree) : M (Tr gtree) :=
+  match t with
+  | GNode l gs =>
+      bind (gmap_children_on (gtransform_up f) l gs) (fun t1 => transform_parent t1 (grcall PUp f))
+  end.
+Fixpoint gtransform_down_up (fd fu : rcb) (t : gtree) : M (Tr gtree) :=
+  match t with
+  | GNode l gs =>
+      let '(l', ch, r) := fd l in
+      bind ([(PDown, l)], mkT (GNode l' gs) ch r) (fun t1 =>
+      bind (transform_children t1 (fun _ => gmap_children_on (gtransform_down_up fd fu) l' gs)) (fun t2 =>
+      transform_parent t2 (grcall PUp fu)))
+  end.
+
+(* forgetting the grouping *)
+Fixpoint flatten (t : gtree) : tree :=
+  match t with GNode l gs => Node l (flat_map (map flatten) gs) end.
+(* a grouped result and a flat result that agree: same log, same tree up to grouping, same flag, same directive *)
+Definition gres_rel (x : M (Tr gtree)) (y : M (Tr tree)) : Prop :=
+  fst x = fst y /\ flatten (data (snd x)) = data (snd y) /\
+  changed (snd x) = changed (snd y) /\ rec (snd x) = rec (snd y).
+
+(* the grouping is harmless exactly when no non-empty container is followed only by empty ones
+   (e.g. CASE WHEN .. THEN .. END without ELSE, `x IN ()`, an aggregate without FILTER / ORDER BY violate it) *)
+Definition is_nil {A} (l : list A) : bool := match l with [] => true | _ => false end.
+Fixpoint groups_ok {A} (gs : list (list A)) : bool :=
+  match gs with
+  | [] => true
+  | g :: rest =>
+      match rest with
+      | [] => true
+      | _ => groups_ok rest && (negb (is_nil (concat rest)) || is_nil g)
+      end
+  end.
+Fixpoint well_grouped (t : gtree) : bool :=
+  match t with GNode _ gs => groups_ok gs && forallb (forallb well_grouped) gs end.
+
 (* ================================================================== CORRESPONDENCE *)
 Definition tnr_eqb (a b : tnr) : bool :=
   match a, b with Continue, Continue | Jump, Jump | Stop, Stop => true | _, _ => false end.
@@ -336,6 +444,13 @@ Inductive c42_case :=
   | CExists (t : tree) (hits : list Z) (log : list event) (res : bool)
   | CVisit (t : tree) (dtab utab : list (Z * tnr)) (log : list event) (res : tnr)
   | CTrans (m : meth) (im : impl) (t : tree) (dtab utab : list (Z * (Z * bool * tnr)))
+           (log : list event) (out : tree) (flag : bool) (res : tnr)
+  (* the same observations made on a real Expr, modelled with its sibling containers *)
+  | GApply (t : gtree) (tab : list (Z * tnr)) (log : list event) (res : tnr)
+  | GApplyChildren (t : gtree) (tab : list (Z * tnr)) (log : list event) (res : tnr)
+  | GExists (t : gtree) (hits : list Z) (log : list event) (res : bool)
+  | GVisit (t : gtree) (dtab utab : list (Z * tnr)) (log : list event) (res : tnr)
+  | GTrans (m : meth) (t : gtree) (dtab utab : list (Z * (Z * bool * tnr)))
            (log : list event) (out : tree) (flag : bool) (res : tnr).
 
 Definition log_eqb := list_eqb event_eqb.
@@ -362,4 +477,21 @@ Definition c42_check (c : c42_case) : bool :=
                | MMapChildren => map_children im (rcall PDown (rtab dtab)) t
                end in
       tr_eqb x log out flag res
+  | GApply t tab log res =>
+      let x := gapply (vtab tab) t in log_eqb (fst x) log && tnr_eqb (snd x) res
+  | GApplyChildren t tab log res =>
+      let x := gapply_children (gvcall PDown (vtab tab)) t in log_eqb (fst x) log && tnr_eqb (snd x) res
+  | GExists t hits log res =>
+      let x := gexists (fun l => existsb (Z.eqb l) hits) t in log_eqb (fst x) log && Bool.eqb (snd x) res
+  | GVisit t dtab utab log res =>
+      let x := gvisit (vtab dtab) (vtab utab) t in log_eqb (fst x) log && tnr_eqb (snd x) res
+  | GTrans m t dtab utab log out flag res =>
+      let x := match m with
+               | MDown => gtransform_down (rtab dtab) t
+               | MUp => gtransform_up (rtab utab) t
+               | MDownUp | MRewrite => gtransform_down_up (rtab dtab) (rtab utab) t
+               | MMapChildren => gmap_children (grcall PDown (rtab dtab)) t
+               end in
+      log_eqb (fst x) log && tree_eqb (flatten (data (snd x))) out && Bool.eqb (changed (snd x)) flag
+      && tnr_eqb (rec (snd x)) res
   end.
